@@ -18,10 +18,10 @@ theorem consts_tie :
     Generated.newRouteMwsCopied = true ∧
     Generated.defaultOptionsForm = "prepend" ∧
     Generated.defaultOptionsEntries = [("Recovery", "RouteHandler", "true"), ("Logger", "AllHandlers", "true")] ∧
-    Generated.loop_applyMiddleware = "i := len(mws) - 1; i >= 0; i--" ∧
-    Generated.conds_applyMiddleware = ["mws[i].scope&scope != 0"] ∧
-    Generated.loop_applyRouteMiddleware = "i := len(mws) - 1; i >= 0; i--" ∧
-    Generated.conds_applyRouteMiddleware = ["mws[i].scope&RouteHandler != 0", "!mws[i].g"] := by
+    Generated.loop_applyMiddleware = "backward over mws" ∧
+    Generated.conds_applyMiddleware = ["$.scope&scope != 0"] ∧
+    Generated.loop_applyRouteMiddleware = "backward over mws" ∧
+    Generated.conds_applyRouteMiddleware = ["$.scope&RouteHandler != 0", "!$.g"] := by
   decide
 
 /-- every kind's constant is a single bit and `AllHandlers` is their union -/
